@@ -1,0 +1,96 @@
+//go:build verif
+
+package bech32
+
+// Contracts for govc, the contract verifier under /verif (see /verif/DESIGN.md).
+// Compiled only with -tags verif; comment-only.
+
+//@ global charset init "qpzry9x8gf2tvdw0s3jn54khce6mua7l"                                  [C09]
+//@ global generator initints 0x3b6a57b2, 0x26508e6d, 0x1ea119fa, 0x3d4233dd, 0x2a1462b3     [C09]
+
+// polystep(c, v): one step of the BCH checksum register, written with the same
+// operations as the loop body of polymod (xor is the uninterpreted bvop.xor32,
+// given its bit-vector meaning in mode bv).
+//@ specfn polyfold((Array Int Int), Int, Int) Int
+//@ define gsel(x, top, d, g) := ((top / d) % 2 == 1 ? xor32(x, g) : x)
+//@ define polystep(c, v) := gsel(gsel(gsel(gsel(gsel(xor32(((c % 33554432) * 32) % 4294967296, v), c / 33554432, 1, 996825010), c / 33554432, 2, 642813549), c / 33554432, 4, 513874426), c / 33554432, 8, 1027748829), c / 33554432, 16, 705979059)
+//@ smt (assert (forall ((a (Array Int Int)) (o Int)) (! (= (polyfold a o 0) 1) :pattern ((polyfold a o 0)))))
+//@ smt (assert (forall ((a (Array Int Int)) (o Int) (n Int)) (! (=> (> n 0) (= (polyfold a o n) (polystep (polyfold a o (- n 1)) (select a (+ o (- n 1)))))) :pattern ((polyfold a o n)))))
+
+//@ func polymod(values) (r)
+//@   loop 1 invariant -1 <= rangeindex && rangeindex < len(values)
+//@   loop 1 invariant#fold chk == polyfold(elems(values), off(values), rangeindex + 1)         [C09]
+//@   loop 1 decreases len(values) - rangeindex
+//@   loop 2 unroll
+//@   ensures#fold r == polyfold(elems(values), off(values), len(values))                        [C09]
+//@   modifies nothing
+
+//@ speclemma stepLinear(c1:30, c2:30, v1:5, v2:5)
+//@   mode bv
+//@   ensures#linear polystep(xor32(c1, c2), xor32(v1, v2)) == xor32(polystep(c1, v1), polystep(c2, v2))     [C09]
+
+//@ speclemma stepRange(c:30, v:5)
+//@   mode bv
+//@   ensures#range polystep(c, v) < 1073741824                                                              [C09]
+
+//@ define step6(s, a, b, c, d, e, f) := polystep(polystep(polystep(polystep(polystep(polystep(s, a), b), c), d), e), f)
+//@ define pack6(a, b, c, d, e, f) := ((((a * 32 + b) * 32 + c) * 32 + d) * 32 + e) * 32 + f
+//@ define sym(m, k) := (m / pow2(5 * (5 - k))) % 32
+
+// The last six symbols enter the register without feedback: appending c0..c5
+// instead of six zeros XORs their 30-bit packing into the result.
+//@ speclemma tailAffine(s:30, a:5, b:5, c:5, d:5, e:5, f:5)
+//@   mode bv
+//@   timeout 120000
+//@   ensures#affine step6(s, a, b, c, d, e, f) == xor32(step6(s, 0, 0, 0, 0, 0, 0), pack6(a, b, c, d, e, f))     [C09]
+
+//@ speclemma packSym(m:30)
+//@   mode bv
+//@   ensures#pack pack6(sym(m, 0), sym(m, 1), sym(m, 2), sym(m, 3), sym(m, 4), sym(m, 5)) == m                    [C09]
+//@   ensures#range sym(m, 0) < 32 && sym(m, 1) < 32 && sym(m, 2) < 32 && sym(m, 3) < 32 && sym(m, 4) < 32 && sym(m, 5) < 32   [C09]
+
+//@ speclemma xorCancel(p:30)
+//@   mode bv
+//@   ensures#one xor32(p, xor32(p, 1)) == 1                                                                       [C09]
+//@   ensures#range xor32(p, 1) < 1073741824                                                                       [C09]
+
+//@ specfn polyb(Bytes) Int
+//@ specfn hrpx(Bytes) Bytes
+//@ smt (assert (forall ((a (Array Int Int)) (o Int) (n Int)) (! (=> (>= n 0) (= (polyb (b.of a o n)) (polyfold a o n))) :pattern ((polyb (b.of a o n))))))
+
+//@ pred printable(s) := forall j in 0..len(s) :: 33 <= at(s, j) && at(s, j) <= 126
+//@ pred nolower(s) := forall j in 0..len(s) :: !(97 <= at(s, j) && at(s, j) <= 122)
+//@ pred noupper(s) := forall j in 0..len(s) :: !(65 <= at(s, j) && at(s, j) <= 90)
+
+//@ func hrpExpand(hrp) (ret)
+//@   loop 1 invariant -1 <= rangeindex && rangeindex < len(h) && len(ret) == rangeindex + 1
+//@   loop 1 decreases len(h) - rangeindex
+//@   loop 2 invariant -1 <= rangeindex && rangeindex < len(h) && len(ret) == len(h) + 2 + rangeindex
+//@   loop 2 decreases len(h) - rangeindex
+//@   ensures#len printable(hrp) ==> len(ret) == 2 * len(hrp) + 1                                      [C09]
+//@   assumes#det bytes(ret) == hrpx(hrp)
+//@   fresh ret when len(ret) > 0
+//@   modifies nothing
+
+//@ func verifyChecksum(hrp, data) (ok)
+//@   ensures#iff ok <==> polyb(cat(hrpx(hrp), old(bytes(data)))) == 1                                 [C09]
+
+//@ func createChecksum(hrp, data) (ret)
+//@   loop 1 unroll
+//@   ensures#len len(ret) == 6                                                                        [C09 C14]
+//@   ensures#range forall j in 0..6 :: 0 <= ret[j] && ret[j] < 32                                     [C09 C14]
+//@   ensures#val forall j in 0..6 :: ret[j] == (xor32(polyb(cat(hrpx(hrp), old(bytes(data)), zeros(6))), 1) / pow2(5 * (5 - j))) % 32   [C09]
+//@   fresh ret
+
+//@ func Decode(s) (hrp, data, err)
+//@   loop 1 invariant 0 <= $pos && $pos <= len(hrp) && (forall j in 0..$pos :: 33 <= at(hrp, j) && at(hrp, j) <= 126)
+//@   loop 1 decreases len(hrp) - $pos
+//@   loop 2 invariant 0 <= $pos && $pos <= len(s) - pos - 1 && len(data) == $pos && 1 <= pos && pos + 7 <= len(s)
+//@   loop 2 invariant#ascii forall j in 0..$pos :: at(s, pos + 1 + j) < 128                            [C09 C14]
+//@   loop 2 invariant#syms forall j in 0..$pos :: 0 <= data[j] && data[j] < 32                         [C09 C14]
+//@   loop 2 decreases len(s) - $pos
+//@   ensures#nil err != nil ==> hrp == "" && data == nil                                               [C09 C14]
+//@   ensures#ascii err == nil ==> printable(old(s))                                                    [C09 C14]
+//@   ensures#case err == nil ==> (nolower(old(s)) || noupper(old(s)))                                  [C09]
+//@   ensures#hrp err == nil ==> len(hrp) >= 1 && printable(hrp) && hasprefix(old(s), hrp) && len(hrp) + 7 <= len(old(s)) && at(old(s), len(hrp)) == 49   [C09]
+//@   ensures#lastsep err == nil ==> (forall j in len(hrp)+1..len(old(s)) :: at(old(s), j) != 49)        [C09]
